@@ -92,7 +92,7 @@ namespace c12
   }
 
   // all monitors of one level. comm[r] = comm_ranks returned by extract_patch for rank r
-  inline void check_level(vh::Ctx& c, const ShapeTab& t, const Level& L, const std::vector<std::vector<int>>& comm, const std::string& where, const std::string& asg_json)
+  inline void check_level(vh::Ctx& c, const ShapeTab& t, const Level& L, const std::vector<std::vector<int>>& comm, const std::string& where, const std::string& asg_json, const std::string& xop = "extract_patch")
   {
     Rep rep(c, where);
     const int dim = t.dim; const std::size_t P = L.patch.size();
@@ -103,11 +103,11 @@ namespace c12
     bool maps_ok = true;
     for(std::size_t r = 0; r < P; ++r)
     {
-      if(pm[r] == nullptr || !pm[r]->present) { rep.bad("extract_patch", "patch-map-missing", J().kv("rank", (unsigned long)r)); maps_ok = false; continue; }
+      if(pm[r] == nullptr || !pm[r]->present) { rep.bad(xop, "patch-map-missing", J().kv("rank", (unsigned long)r)); maps_ok = false; continue; }
       std::string why;
-      if(!c10::part_ranges_ok(t, L.base, *pm[r], why)) { rep.bad("extract_patch", "patch-map-range", J().kv("rank", (unsigned long)r).kv("why", why)); maps_ok = false; continue; }
+      if(!c10::part_ranges_ok(t, L.base, *pm[r], why)) { rep.bad(xop, "patch-map-range", J().kv("rank", (unsigned long)r).kv("why", why)); maps_ok = false; continue; }
       for(int d = 0; d <= dim; ++d) if(pm[r]->n[d] != L.patch[r].n[d])
-      { rep.bad("extract_patch", "patch-map-size", J().kv("rank", (unsigned long)r).kv("d", d).kv("map_entities", (unsigned long)pm[r]->n[d]).kv("patch_mesh_entities", (unsigned long)L.patch[r].n[d])); maps_ok = false; }
+      { rep.bad(xop, "patch-map-size", J().kv("rank", (unsigned long)r).kv("d", d).kv("map_entities", (unsigned long)pm[r]->n[d]).kv("patch_mesh_entities", (unsigned long)L.patch[r].n[d])); maps_ok = false; }
     }
     c.event();
     if(!maps_ok) return;
@@ -116,7 +116,7 @@ namespace c12
       std::vector<int> cnt(L.base.n[dim], 0); std::vector<long> who(L.base.n[dim], -1);
       for(std::size_t r = 0; r < P; ++r) for(Idx x : pm[r]->trg[dim]) { ++cnt[x]; who[x] = long(r); }
       for(Idx i = 0; i < L.base.n[dim]; ++i) if(cnt[i] != 1)
-      { rep.bad("extract_patch", cnt[i] == 0 ? "cell-in-no-patch" : "cell-in-several-patches", J().kv("cell", (unsigned long)i).kv("count", cnt[i]).kv("last_rank", who[i])); break; }
+      { rep.bad(xop, cnt[i] == 0 ? "cell-in-no-patch" : "cell-in-several-patches", J().kv("cell", (unsigned long)i).kv("count", cnt[i]).kv("last_rank", who[i])); break; }
       c.event();
     }
     // M2 injectivity of every entity map, M2b the map is an embedding (incidences are respected)
@@ -130,7 +130,7 @@ namespace c12
         for(Idx i = 0; i < pm[r]->n[d]; ++i)
         {
           const Idx x = pm[r]->trg[d][i];
-          if(seen[x]) { rep.bad("extract_patch", "patch-map-not-injective", J().kv("rank", (unsigned long)r).kv("d", d).kv("patch_entity", (unsigned long)i).kv("base_entity", (unsigned long)x)); break; }
+          if(seen[x]) { rep.bad(xop, "patch-map-not-injective", J().kv("rank", (unsigned long)r).kv("d", d).kv("patch_entity", (unsigned long)i).kv("base_entity", (unsigned long)x)); break; }
           seen[x] = 1; ranks_of[std::size_t(d)][x].push_back(int(r));
         }
       }
@@ -143,7 +143,7 @@ namespace c12
           Idx a[8]; for(int k = 0; k < nv; ++k) a[k] = pm[r]->trg[0][L.patch[r].idx[d][0][i * Idx(nv) + Idx(k)]];
           if(!(c10::make_key(a, nv) == c10::make_key(&L.base.idx[d][0][pm[r]->trg[d][i] * Idx(nv)], nv)))
           {
-            rep.bad("extract_patch", "patch-map-not-an-embedding", J().kv("rank", (unsigned long)r).kv("d", d).kv("patch_entity", (unsigned long)i).kv("base_entity", (unsigned long)pm[r]->trg[d][i])
+            rep.bad(xop, "patch-map-not-an-embedding", J().kv("rank", (unsigned long)r).kv("d", d).kv("patch_entity", (unsigned long)i).kv("base_entity", (unsigned long)pm[r]->trg[d][i])
               .kv("mapped_vertices", c10::key_str(c10::make_key(a, nv))).kv("base_vertices", c10::key_str(c10::make_key(&L.base.idx[d][0][pm[r]->trg[d][i] * Idx(nv)], nv))));
             bad = true; break;
           }
@@ -158,16 +158,16 @@ namespace c12
     {
       for(int s : comm[r])
       {
-        if(s < 0 || std::size_t(s) >= P || std::size_t(s) == r) { rep.bad("extract_patch", "comm-rank-invalid", J().kv("rank", (unsigned long)r).kv("listed", s)); continue; }
-        if(listed[r][std::size_t(s)]) rep.bad("extract_patch", "comm-rank-listed-twice", J().kv("rank", (unsigned long)r).kv("listed", s));
+        if(s < 0 || std::size_t(s) >= P || std::size_t(s) == r) { rep.bad(xop, "comm-rank-invalid", J().kv("rank", (unsigned long)r).kv("listed", s)); continue; }
+        if(listed[r][std::size_t(s)]) rep.bad(xop, "comm-rank-listed-twice", J().kv("rank", (unsigned long)r).kv("listed", s));
         listed[r][std::size_t(s)] = 1;
       }
     }
     for(std::size_t r = 0; r < P; ++r) for(std::size_t s = 0; s < P; ++s) if(r != s)
     {
-      if(listed[r][s] != listed[s][r]) rep.bad("extract_patch", "neighbours-not-symmetric", J().kv("rank", (unsigned long)r).kv("other", (unsigned long)s).kv("r_lists_s", bool(listed[r][s])).kv("s_lists_r", bool(listed[s][r])));
-      if(listed[r][s] && !share[r][s]) rep.bad("extract_patch", "neighbour-without-shared-vertex", J().kv("rank", (unsigned long)r).kv("other", (unsigned long)s));
-      if(!listed[r][s] && share[r][s]) rep.bad("extract_patch", "neighbour-missing", J().kv("rank", (unsigned long)r).kv("other", (unsigned long)s));
+      if(listed[r][s] != listed[s][r]) rep.bad(xop, "neighbours-not-symmetric", J().kv("rank", (unsigned long)r).kv("other", (unsigned long)s).kv("r_lists_s", bool(listed[r][s])).kv("s_lists_r", bool(listed[s][r])));
+      if(listed[r][s] && !share[r][s]) rep.bad(xop, "neighbour-without-shared-vertex", J().kv("rank", (unsigned long)r).kv("other", (unsigned long)s));
+      if(!listed[r][s] && share[r][s]) rep.bad(xop, "neighbour-missing", J().kv("rank", (unsigned long)r).kv("other", (unsigned long)s));
     }
     c.event();
     // M4 halos
@@ -178,11 +178,11 @@ namespace c12
       for(const PartSnap& h : L.patch[r].parts)
       {
         const long s = std::strtol(h.name.c_str(), nullptr, 10);
-        if(s < 0 || std::size_t(s) >= P || !listed[r][std::size_t(s)]) { rep.bad("extract_patch", "halo-for-non-neighbour", J().kv("rank", (unsigned long)r).kv("halo_rank", s)); continue; }
+        if(s < 0 || std::size_t(s) >= P || !listed[r][std::size_t(s)]) { rep.bad(xop, "halo-for-non-neighbour", J().kv("rank", (unsigned long)r).kv("halo_rank", s)); continue; }
         halo[std::size_t(s)] = &h;
       }
       for(std::size_t s = 0; s < P; ++s) if(listed[r][s] && (halo[s] == nullptr || !halo[s]->present))
-        rep.bad("extract_patch", "halo-missing", J().kv("rank", (unsigned long)r).kv("neighbour", (unsigned long)s));
+        rep.bad(xop, "halo-missing", J().kv("rank", (unsigned long)r).kv("neighbour", (unsigned long)s));
     }
     // shared[(r,s)][d] = base d-entities contained in patch r and in patch s (ascending), r < s
     std::unordered_map<std::uint64_t, std::array<std::vector<Idx>, 4>> shared;
@@ -197,8 +197,8 @@ namespace c12
       const PartSnap* hr = halos[r][s]; const PartSnap* hs = halos[s][r];
       if(!hr || !hs || !hr->present || !hs->present) continue;
       std::string why;
-      if(!c10::part_ranges_ok(t, L.patch[r], *hr, why)) { rep.bad("extract_patch", "halo-range", J().kv("rank", (unsigned long)r).kv("neighbour", (unsigned long)s).kv("why", why)); continue; }
-      if(!c10::part_ranges_ok(t, L.patch[s], *hs, why)) { rep.bad("extract_patch", "halo-range", J().kv("rank", (unsigned long)s).kv("neighbour", (unsigned long)r).kv("why", why)); continue; }
+      if(!c10::part_ranges_ok(t, L.patch[r], *hr, why)) { rep.bad(xop, "halo-range", J().kv("rank", (unsigned long)r).kv("neighbour", (unsigned long)s).kv("why", why)); continue; }
+      if(!c10::part_ranges_ok(t, L.patch[s], *hs, why)) { rep.bad(xop, "halo-range", J().kv("rank", (unsigned long)s).kv("neighbour", (unsigned long)r).kv("why", why)); continue; }
       for(int d = 0; d <= dim; ++d)
       {
         std::vector<Idx> a, b;
@@ -206,7 +206,7 @@ namespace c12
         for(Idx x : hs->trg[d]) b.push_back(pm[s]->trg[d][x]);
         if(a != b)
         {
-          rep.bad("extract_patch", "halo-sequences-differ", J().kv("rank", (unsigned long)r).kv("neighbour", (unsigned long)s).kv("d", d)
+          rep.bad(xop, "halo-sequences-differ", J().kv("rank", (unsigned long)r).kv("neighbour", (unsigned long)s).kv("d", d)
             .raw("base_entities_r_to_s", vh::jarr(a, 40)).raw("base_entities_s_to_r", vh::jarr(b, 40)));
           continue;
         }
@@ -216,7 +216,7 @@ namespace c12
         const std::vector<Idx>& want = itw == shared.end() ? none : itw->second[std::size_t(d)];
         std::sort(a.begin(), a.end());
         if(a != want)
-          rep.bad("extract_patch", "halo-is-not-the-shared-set", J().kv("rank", (unsigned long)r).kv("neighbour", (unsigned long)s).kv("d", d)
+          rep.bad(xop, "halo-is-not-the-shared-set", J().kv("rank", (unsigned long)r).kv("neighbour", (unsigned long)s).kv("d", d)
             .raw("halo_base_entities_sorted", vh::jarr(a, 40)).raw("shared_base_entities", vh::jarr(want, 40)));
       }
       c.event();
